@@ -258,6 +258,12 @@ def h_readonly(shape):
                 ["add", "l", ["pulse", ["ramp", 12, S("a1", lo=0, hi=10), S("a2", lo=0, hi=10)], ["const", 12, 0.0], 1.0]],
                 ["delay", "g", 16, True], ["align", ["g", "l"], True], ["delay", "l", 16, False], ["align", ["l", "g"], False],
                 ["phase_shift", 0.5, ["q0", "q1", "q2"], "ground-rydberg"]]
+        if shape["what"] == "sample_mod":
+            # modulated sampling runs the real FFT: concrete numbers and a concrete timeline (constant fall times)
+            stubs.bind(inp, fixed=True)
+            prog = [["declare", "g", "ryd_glob"], ["declare", "l", "ryd_loc", "q0"],
+                    ["add", "g", ["cp", 16, 2.0, 1.0, 0.0, 0.25]], ["add", "l", ["pulse", ["ramp", 12, 1.0, 3.0], ["const", 12, 0.0], 1.0]],
+                    ["delay", "g", 16, True], ["align", ["g", "l"], True], ["phase_shift", 0.5, ["q0", "q1", "q2"], "ground-rydberg"]]
         if shape.get("eom"):
             prog += [["enable_eom", "g", 1.0, 0.0, 0.0], ["add_eom", "g", 16, 0.0]]
         l2.run_prefix(inp, seq, prog)
@@ -283,6 +289,9 @@ def h_readonly(shape):
             seq.get_addressed_bases()
         elif what == "sample":
             pulser.sampler.sample(seq)
+        elif what == "sample_mod":
+            pulser.sampler.sample(seq, modulation=True)
+            pulser.sampler.sample(seq, modulation=True, extended_duration=seq.get_duration() + 20)
         elif what == "build_copy":
             seq.build()
         elif what == "to_abstract_repr":
@@ -352,7 +361,7 @@ def kernels(tier):
     for pre, call in (("p2", "own_add_in_eom"), ("p2", "own_enable_eom_twice"), ("p0", "own_add_eom_outside"), ("p1", "own_add_eom_outside"),
                       ("p1", "own_target_global"), ("p1", "own_delay_badchannel_kw")):
         ks.append(("unknown_var", dict(device="virt_maxseq", prefix=pre, call=call, own_var=False)))
-    for what in ("str", "get_duration", "estimate", "phase_ref", "queries", "sample", "build_copy", "to_abstract_repr", "serialize"):
+    for what in ("str", "get_duration", "estimate", "phase_ref", "queries", "sample", "sample_mod", "build_copy", "to_abstract_repr", "serialize"):
         for eom in (False, True):
             if what == "sample" and eom:
                 continue  # EOM needs modulation; sampling needs a concrete timeline (no stubbed fall times)
